@@ -19,7 +19,9 @@ def relevant(ob, job, prop):
     if cls == "mem":
         t = S & {"C11"}
         return prop in (t or S)
-    if cls in ("post", "assert", "native"):
+    if cls == "native":
+        return prop in S
+    if cls in ("post", "assert"):
         t = S - FUNCTIONAL_EXCLUDE
         return prop in (t or S)
     # loop, pre, unwind, ub, other: proof-structure obligations, they carry every property of the job
